@@ -438,13 +438,7 @@ func c02Run(tr *tracer, sc *c02Scenario, variant uint64) {
 	}
 	hints, herr := c02Hints(data)
 	c1, r1 := parquet.VerifPathCounters()
-	// columns written with SkipPageBounds: their column-index entries are placeholders
-	noBounds := [][][]int{}
-	if sc.Cfg.Stats == "nobounds" {
-		noBounds = [][][]int{{bytesToInts([]byte("s"))}, {bytesToInts([]byte("d"))}}
-	}
-	e := ev{"bytes": bytesToInts(data), "hints": hints, "expect": streams, "rows": nrows, "size": len(data), "copied": int(c1 - c0), "reencoded": int(r1 - r0),
-		"noBounds": noBounds}
+	e := ev{"bytes": bytesToInts(data), "hints": hints, "expect": streams, "rows": nrows, "size": len(data), "copied": int(c1 - c0), "reencoded": int(r1 - r0)}
 	if herr != nil {
 		e["hintError"] = herr.Error()
 	}
